@@ -50,8 +50,8 @@ def loops(n: int) -> int:
 @guppy
 def structs(n: int) -> float:
     q = Q(P(n, 1.5), 2)
-    q.p.a += helper(q.n)
-    return q.p.b + ident(q.p.a)
+    r = Q(P(helper(q.n), q.p.b), q.p.a)
+    return r.p.b + ident(r.p.a)
 
 @guppy
 def nested(n: int) -> int:
@@ -70,7 +70,7 @@ def quantum(q: qubit @owned) -> bool:
 @guppy
 def arrays(xs: array[int, 3]) -> int:
     s = 0
-    for x in xs:
+    for x in xs.copy():
         s += ident(x)
     return s + xs[1]
 
@@ -84,6 +84,10 @@ def traced(n: int) -> int:
 @guppy
 def uses_traced(n: int) -> int:
     return traced(n) + helper(n)
+
+@guppy.comptime
+def bad_traced(n: int) -> int:
+    return undefined_thing + n
 
 @guppy
 def broken_fn(x: int) -> int:
@@ -183,6 +187,14 @@ try:
             r1 = act(m, ("check", f)); r2 = act(m, ("check", f)); n += 1
             if r1 != r2 and bad is None:
                 bad = {"target": f, "history": [("check", f)], "detail": f"checking `{f}` twice gives {r1} then {r2}"}
+        # a failed comptime trace must not leave the session in tracing mode
+        from guppylang_internals.tracing.state import tracing_active
+        r = act(m, ("compile", "bad_traced")); n += 1
+        if tracing_active() and bad is None:
+            bad = {"target": "bad_traced", "history": [("compile", "bad_traced")], "detail": f"after the failed comptime compile ({r}) tracing_active() is still True: Guppy functions can be called from plain Python"}
+        got = ser(getattr(m, t).compile_function()); n += 1
+        if got != base[t] and bad is None:
+            bad = {"target": t, "history": [("compile", "bad_traced")], "detail": f"HUGR of `{t}` differs after a failed comptime compile"}
 finally:
     shutil.rmtree(d, ignore_errors=True)
 print(json.dumps({"violates": bad is not None, "evaluations": n, "witness": bad, "detail": bad and bad["detail"]}))
